@@ -50,3 +50,13 @@ func VerifC16ValidateOrderedTicket(ctx context.Context, t *sidecar.Ticket,
 
 	return validateOrderedTicket(ctx, t, signer, db)
 }
+
+// VerifC16QuitClosed reports whether Stop() was called (quit is closed).
+func (a *SidecarNegotiator) VerifC16QuitClosed() bool {
+	select {
+	case <-a.quit:
+		return true
+	default:
+		return false
+	}
+}
